@@ -188,6 +188,17 @@ def run_l1_property(spec, tier, seed, replay=None, proof=None):
         if getattr(spec, "overlap", False):
             from .props_conc import overlap_cases
             cases += overlap_cases(spec.id, rng, tier)
+    if tier == "thorough" and not replay and any(c.mode == "bin" for c in cases):
+        # thorough tier: the cases that drive the real executable are run a second time against the RELEASE build (what
+        # is shipped: no debug assertions, wrapping arithmetic) — at most sixteen of them, spread over the families
+        okb, rbin, blog = build.build_server_bin(release=True)
+        if not okb:
+            raise RuntimeError("server binary (release) build failed:\n" + blog[-1500:])
+        os.environ["TSS_SERVER_BIN_RELEASE"] = rbin
+        bins = [c for c in cases if c.mode == "bin" and not any(o.startswith("sleep ") for o in c.ops)]
+        step = max(1, len(bins) // 16)
+        for c in bins[::step][:16]:
+            cases.append(Case(c.name + "-release", ["usebin release"] + list(c.ops), dict(c.meta, release=True), mode="bin"))
     if any(c.mode == "bin" for c in cases) and not os.environ.get("TSS_SERVER_BIN"):
         # some cases drive the real executable
         okb, sbin, blog = build.build_server_bin()
